@@ -1,0 +1,161 @@
+//go:build verif
+
+package webp
+
+// Verification hook for property C20 (option handling). Add-only, compiled only
+// with -tags verif. It exposes the internal configurations that a public
+// EncoderOptions value resolves to.
+//
+// The option-propagation code of encodeLossyWithAlpha / encodeLossless is inline in
+// large functions, so it cannot be called. The three verif*Config functions below
+// therefore REPLICATE those statement sequences verbatim; /verif's translator
+// (tools/gosrc2v/funcs.go) compares the printed ASTs of these bodies with the
+// corresponding statements of encode.go on every run and refuses when they differ.
+// Do not edit the bodies by hand other than by copying from encode.go.
+
+import (
+	"github.com/deepteams/webp/internal/lossless"
+	"github.com/deepteams/webp/internal/lossy"
+)
+
+// verifLossyConfig = encodeLossyWithAlpha, from `cfg := lossy.DefaultConfig(...)`
+// up to and including the `if hasAlpha {...} else {...}` statement.
+func verifLossyConfig(opts *EncoderOptions, hasAlpha bool) lossy.EncodeConfig {
+	cfg := lossy.DefaultConfig(int(opts.Quality))
+	cfg.Method = opts.Method
+	if opts.TargetSize > 0 {
+		cfg.TargetSize = opts.TargetSize
+	}
+	if opts.TargetPSNR > 0 {
+		cfg.TargetPSNR = opts.TargetPSNR
+	}
+	cfg.QMin = opts.QMin
+	cfg.QMax = resolveQMax(opts.QMax)
+	if opts.SNSStrength >= 0 {
+		cfg.SNSStrength = opts.SNSStrength
+	}
+	if opts.FilterStrength >= 0 {
+		cfg.FilterStrength = opts.FilterStrength
+	}
+	cfg.FilterSharpness = opts.FilterSharpness
+	if opts.FilterType >= 0 {
+		cfg.FilterType = opts.FilterType
+	}
+	cfg.Partitions = opts.Partitions
+	if opts.Segments > 0 {
+		cfg.Segments = opts.Segments
+	}
+	if opts.Pass > 0 {
+		cfg.Pass = opts.Pass
+	}
+	cfg.Preprocessing = opts.Preprocessing
+	if opts.Preprocessing&2 != 0 {
+		x := opts.Quality / 100.0
+		x2 := x * x
+		cfg.Dithering = 1.0 + (0.5-1.0)*x2*x2
+	}
+	if hasAlpha {
+		cfg.HasAlpha = 1
+	} else {
+		cfg.HasAlpha = 0
+	}
+	return cfg
+}
+
+// verifAlphaConfig = encodeLossyWithAlpha, from `alphaComp := ...` up to and
+// including the `alphaCfg := &lossy.AlphaEncoderConfig{...}` statement.
+func verifAlphaConfig(opts *EncoderOptions) *lossy.AlphaEncoderConfig {
+	alphaComp := resolveAlphaCompression(opts.AlphaCompression)
+	alphaFilt := resolveAlphaFiltering(opts.AlphaFiltering)
+	alphaQual := resolveAlphaQuality(opts.AlphaQuality)
+	alphaMethod := lossy.AlphaLosslessCompression
+	if alphaComp == 0 {
+		alphaMethod = lossy.AlphaNoCompression
+	}
+	var alphaFilterMode int
+	switch alphaFilt {
+	case 0:
+		alphaFilterMode = lossy.AlphaFilterModeNone
+	case 2:
+		alphaFilterMode = lossy.AlphaFilterModeBest
+	default:
+		alphaFilterMode = lossy.AlphaFilterModeFast
+	}
+	alphaCfg := &lossy.AlphaEncoderConfig{
+		Quality:     alphaQual,
+		Method:      alphaMethod,
+		Filter:      alphaFilterMode,
+		EffortLevel: opts.Method,
+	}
+	return alphaCfg
+}
+
+// verifLosslessConfig = the `lcfg := &lossless.EncoderConfig{...}` statement of
+// encodeLossless and of encodeLosslessToWriter.
+func verifLosslessConfig(opts *EncoderOptions) *lossless.EncoderConfig {
+	lcfg := &lossless.EncoderConfig{
+		Quality:             int(opts.Quality),
+		Method:              opts.Method,
+		NearLosslessQuality: 100,
+	}
+	return lcfg
+}
+
+// VerifEffective is the flattened result of VerifEffectiveConfig.
+type VerifEffective struct {
+	// ErrClass: 0 = accepted, 1 = validateConfig error, 2 = dimension error.
+	ErrClass int
+	Lossless bool
+	// Options read directly by the encode path (not through a config struct).
+	Exact, UseSharpYUV bool
+	MetaICC, MetaEXIF, MetaXMP int // lengths
+	// lossless.EncoderConfig
+	LQuality, LMethod, LNearLossless int
+	// lossy.EncodeConfig
+	Quality, TargetSize                                                int
+	TargetPSNR                                                         float32
+	Method, SNSStrength, FilterStrength, FilterSharpness, FilterType   int
+	Partitions, Segments, Pass, Preprocessing                          int
+	Dithering                                                          float32
+	QMin, QMax, HasAlpha                                               int
+	// lossy.AlphaEncoderConfig
+	AlphaQuality, AlphaMethod, AlphaFilter, AlphaEffort int
+}
+
+// VerifEffectiveConfig returns what Encode would hand to the codecs for the given
+// options and a w x h image (hasAlpha: result of imageHasAlpha on that image).
+// The nil / validation / dimension sequence is the one of Encode.
+func VerifEffectiveConfig(opts *EncoderOptions, w, h int, hasAlpha bool) VerifEffective {
+	var r VerifEffective
+	if opts == nil {
+		opts = DefaultOptions()
+	}
+	if err := validateConfig(opts); err != nil {
+		r.ErrClass = 1
+		return r
+	}
+	if w <= 0 || h <= 0 || w > MaxDimension || h > MaxDimension {
+		r.ErrClass = 2
+		return r
+	}
+	r.Lossless = opts.Lossless
+	r.Exact = opts.Exact
+	r.UseSharpYUV = opts.UseSharpYUV
+	r.MetaICC, r.MetaEXIF, r.MetaXMP = len(opts.ICC), len(opts.EXIF), len(opts.XMP)
+	if opts.Lossless {
+		l := verifLosslessConfig(opts)
+		r.LQuality, r.LMethod, r.LNearLossless = l.Quality, l.Method, l.NearLosslessQuality
+		return r
+	}
+	c := verifLossyConfig(opts, hasAlpha)
+	r.Quality, r.TargetSize, r.TargetPSNR, r.Method = c.Quality, c.TargetSize, c.TargetPSNR, c.Method
+	r.SNSStrength, r.FilterStrength, r.FilterSharpness, r.FilterType = c.SNSStrength, c.FilterStrength, c.FilterSharpness, c.FilterType
+	r.Partitions, r.Segments, r.Pass, r.Preprocessing = c.Partitions, c.Segments, c.Pass, c.Preprocessing
+	r.Dithering, r.QMin, r.QMax, r.HasAlpha = c.Dithering, c.QMin, c.QMax, c.HasAlpha
+	a := verifAlphaConfig(opts)
+	r.AlphaQuality, r.AlphaMethod, r.AlphaFilter, r.AlphaEffort = a.Quality, a.Method, a.Filter, a.EffortLevel
+	return r
+}
+
+// VerifValidateConfig exposes validateConfig (true = accepted).
+func VerifValidateConfig(opts *EncoderOptions) bool { return validateConfig(opts) == nil }
